@@ -60,19 +60,19 @@ var commonAssumptions = []string{
 }
 
 func init() {
-	reg("C12", "exploration", false, 160000, 25, 6000000, 240, 3)
-	reg("C09", "exploration", true, 40000, 40, 1500000, 300, 3)
-	reg("C11", "exploration", false, 100000, 30, 3000000, 240, 3)
-	reg("C13", "fault_enumeration", false, 60000, 30, 2000000, 240, 3)
-	reg("C05", "exploration", false, 100000, 30, 3000000, 240, 3)
-	reg("C06", "exploration", false, 40000, 40, 1000000, 240, 3)
-	reg("C10", "fault_enumeration", false, 80000, 40, 3000000, 240, 3)
-	reg("C07", "exploration", false, 80000, 40, 3000000, 240, 3)
-	reg("C08", "exploration", false, 60000, 40, 2000000, 240, 3)
-	reg("C17", "exploration", false, 150000, 30, 6000000, 200, 3)
-	reg("C19", "fault_enumeration", false, 40000, 40, 1000000, 240, 3)
-	reg("C20", "exploration", false, 60000, 40, 2000000, 240, 3)
-	reg("C04", "exploration", false, 100000, 30, 4000000, 240, 3)
+	reg("C12", "exploration", false, 400000, 45, 6000000, 240, 3)
+	reg("C09", "exploration", true, 80000, 50, 1500000, 300, 3)
+	reg("C11", "exploration", false, 250000, 45, 3000000, 240, 3)
+	reg("C13", "fault_enumeration", false, 150000, 45, 2000000, 240, 3)
+	reg("C05", "exploration", false, 250000, 45, 3000000, 240, 3)
+	reg("C06", "exploration", false, 80000, 45, 1000000, 240, 3)
+	reg("C10", "fault_enumeration", false, 200000, 45, 3000000, 240, 3)
+	reg("C07", "exploration", false, 200000, 45, 3000000, 240, 3)
+	reg("C08", "exploration", false, 100000, 45, 2000000, 240, 3)
+	reg("C17", "exploration", false, 300000, 45, 6000000, 200, 3)
+	reg("C19", "fault_enumeration", false, 80000, 45, 1000000, 240, 3)
+	reg("C20", "exploration", false, 150000, 45, 2000000, 240, 3)
+	reg("C04", "exploration", false, 250000, 45, 4000000, 240, 3)
 }
 
 type findings struct {
